@@ -45,8 +45,10 @@ type Node struct {
 	Items []Item `json:"items,omitempty"`
 	End   string `json:"end"` // stop return selfdestruct | revert invalid oog stack stackover badjump oversize codestore
 	Ben   int    `json:"ben,omitempty"`
-	Gas   uint64 `json:"gas,omitempty"`     // gas requested at the call site (0: the level's default)
-	Pay   bool   `json:"payable,omitempty"` // called with value: accepts it and stops without running the body
+	Gas   uint64 `json:"gas,omitempty"`        // gas requested at the call site (0: the level's default)
+	Pre   int    `json:"precompile,omitempty"` // callee is the precompiled contract at this address (no body)
+	In    string `json:"input,omitempty"`      // hex input handed to the precompile
+	Pay   bool   `json:"payable,omitempty"`    // called with value: accepts it and stops without running the body
 }
 
 type Item struct {
@@ -59,7 +61,7 @@ type Item struct {
 func isCreateKind(k string) bool { return k == kCREATE || k == kCREATE2 }
 func isFailEnd(e string) bool {
 	switch e {
-	case "revert", "invalid", "oog", "stack", "stackover", "badjump", "oversize", "codestore":
+	case "revert", "invalid", "oog", "stack", "stackover", "badjump", "oversize", "codestore", "prefail":
 		return true
 	}
 	return false
@@ -75,7 +77,10 @@ func modeOfEnd(e string) string {
 func isWrite(it Item) bool { return it.Op != "child" && it.Op != "again" }
 
 // silentEnd: creation failures decided after the init code returned (no failing frame exit at the hook).
-func silentEnd(e string) bool { return e == "oversize" || e == "codestore" }
+// "prefail": a precompiled contract rejects its input or gets too little gas (never reaches the interpreter).
+func silentEnd(e string) bool { return e == "oversize" || e == "codestore" || e == "prefail" }
+
+const preInOffset = 0x10000 // memory region used for precompile inputs only
 
 const (
 	trampolineGas = 40000000 // gas given to the frame that performs a creation meant to fail at code storage
@@ -328,6 +333,40 @@ func (c *compiled) body(n *Node, ctx *common.Address, level int, chainID *big.In
 				lNoCall = a.NewLabel()
 				envBit(a, opTIMESTAMP, ch.ID)
 				a.PushLabel(lNoCall).Op(opJUMPI)
+			}
+			if ch.Pre != 0 { // precompiled callee: write the input, call it, ignore the result
+				in := common.FromHex("0x" + ch.In)
+				for off := 0; off < len(in); off += 32 {
+					var w [32]byte
+					copy(w[:], in[off:])
+					a.PushBytes(w[:]).Push(uint64(preInOffset + off)).Op(opMSTORE)
+				}
+				a.Op(opPUSH1, 0, opPUSH1, 0).Push(uint64(len(in))).Push(preInOffset)
+				if ch.Kind == kCALL || ch.Kind == kCALLCODE {
+					a.Push(ch.Val)
+				}
+				g := levelGas(level + 1)
+				if ch.Gas != 0 {
+					g = ch.Gas
+				}
+				a.PushBytes([]byte{byte(ch.Pre)}).Push(g)
+				switch ch.Kind {
+				case kCALL:
+					a.Op(opCALL)
+				case kCALLCODE:
+					a.Op(opCALLCODE)
+				case kDELEGATE:
+					a.Op(opDELEGATECALL)
+				case kSTATIC:
+					a.Op(opSTATICCALL)
+				default:
+					panic("precompile entered by " + ch.Kind)
+				}
+				a.Op(opPOP)
+				if lNoCall >= 0 {
+					a.Mark(lNoCall)
+				}
+				continue
 			}
 			switch ch.Kind {
 			case kCALL, kCALLCODE, kDELEGATE, kSTATIC:
@@ -665,6 +704,9 @@ func (n *Node) shape(top bool) string {
 	if n.Pay {
 		return fmt.Sprintf("%s#%d/%s%s", n.Kind, n.ID, n.End, s)
 	}
+	if n.Pre != 0 {
+		return fmt.Sprintf("%s(precompile %d)/%s", n.Kind, n.Pre, n.End)
+	}
 	return n.Kind + "/" + n.End + s
 }
 
@@ -833,6 +875,17 @@ func (g *gen) node(kind string, level, maxLevel int, ctxKnown, funded bool, ids 
 				val = uint64(1 + r.Intn(9))
 			}
 			n.Items = append(n.Items, Item{Op: "again", A: uint64(v), B: val})
+			continue
+		}
+		if len(preTable) > 0 && r.Intn(100) < 5 { // a precompiled callee, accepted / rejected / short of gas
+			e := preTable[r.Intn(len(preTable))]
+			k := []string{kCALL, kCALLCODE, kDELEGATE, kSTATIC}[r.Intn(4)]
+			val := uint64(0)
+			if funded && (k == kCALL || k == kCALLCODE) && r.Intn(4) == 0 {
+				val = uint64(1 + r.Intn(3))
+			}
+			pn := preNode(g.id(), k, e, r.Intn(3) == 0, val)
+			n.Items = append(n.Items, Item{Op: "child", Child: pn})
 			continue
 		}
 		if level+1 < maxLevel && r.Intn(100) < 4 { // creation failing at code storage, performed by a gas-limited frame
@@ -1041,6 +1094,38 @@ func genSystematic() []sysCase {
 					root.Items = append(root.Items, top)
 					root.Items = append(root.Items, e2()...)
 					out = append(out, sysCase{Kind: k, Mode: m, Action: act.Name, Depth: depth, Tree: root})
+				}
+			}
+		}
+	}
+	// precompiled callees: every address x entering opcode x {input accepted, input rejected, one gas unit short} x value
+	for _, e := range preTable {
+		for _, k := range []string{kCALL, kCALLCODE, kDELEGATE, kSTATIC} {
+			for variant := 0; variant < 3; variant++ { // 0: as is, 1: with value, 2: gas too low
+				if variant == 1 && k != kCALL && k != kCALLCODE {
+					continue
+				}
+				for depth := 1; depth <= 2; depth++ {
+					pn := preNode(10, k, e, variant == 2, uint64(variant&1))
+					if variant == 2 && pn.Gas == 0 {
+						continue
+					}
+					top := Item{Op: "child", Child: pn}
+					if depth == 2 {
+						top = leafChild(kCALL, "stop", 8, 0, Item{Op: "sstore", A: 5, B: 3}, top, Item{Op: "sprobe", A: 4, B: 6})
+					}
+					root := &Node{ID: 0, Kind: kCALL, End: "stop"}
+					root.Items = append(root.Items, e1...)
+					root.Items = append(root.Items, top)
+					root.Items = append(root.Items, e2()...)
+					reason := "accepted"
+					if pn.End == "prefail" {
+						reason = "badinput"
+						if variant == 2 {
+							reason = "lowgas"
+						}
+					}
+					out = append(out, sysCase{Kind: k, Mode: "precompile-" + reason, Action: fmt.Sprintf("precompile%d-v%d", e.Addr, variant), Depth: depth, Tree: root})
 				}
 			}
 		}
